@@ -31,6 +31,7 @@ import (
 	metav1 "k8s.io/apimachinery/pkg/apis/meta/v1"
 	"k8s.io/apimachinery/pkg/runtime"
 	"k8s.io/apimachinery/pkg/runtime/schema"
+	"k8s.io/apimachinery/pkg/types"
 	k8stesting "k8s.io/client-go/testing"
 	"k8s.io/client-go/tools/cache"
 	"k8s.io/client-go/util/workqueue"
@@ -98,7 +99,7 @@ func (a *verifAPI) create(name, cidr string, disabled bool, stamp int) {
 	p := &v3.IPPool{
 		ObjectMeta: metav1.ObjectMeta{
 			Name:              name,
-			UID:               "uid-" + name + "-" + strconv.Itoa(a.rv),
+			UID:               types.UID("uid-" + name + "-" + strconv.Itoa(a.rv)),
 			CreationTimestamp: metav1.NewTime(verifEpoch.Add(time.Duration(stamp) * time.Second)),
 			ResourceVersion:   a.nextRV(),
 		},
